@@ -406,6 +406,10 @@ def run(facts, rep, tier, ctx):
         from .c10 import _Prefixed as _Pf
         pr_.generic_routes(rep if not w.asyncw else _Pf(rep, "A"), "R07.6")
         pr_.fast_paths(rep if not w.asyncw else _Pf(rep, "A"), "R07.6f")
+        # (c) the walk decides by the entries it is given, not by how long their path strings are (a depth limit counted on the
+        # absolute string cuts the same tree at different places behind different prefixes)
+        from . import c05 as _c05w
+        _c05w.walk_rules(facts, _c05w._P5(rep if not w.asyncw else _Pf(rep, "A"), "R07.6w"), w, D)
     n = c06.joiner_rules(facts, rep, D)
     n += c06.accessor_rules(facts, rep, D)
     n += c06.single_impl_rules(facts, rep, D)
